@@ -47,6 +47,7 @@ def parseOp (w : List String) : Option Op :=
   | ["toRecords", x, t, sp] => do let t ← parseHexNat t; let sp ← parseHexNat sp; pure (.toRecords x t sp)
   | ["cycle"] => some .cycle
   | ["flush"] => some .flush
+  | ["flushEnd"] => some .flush       -- that `flush()` returns: its own whole cycle has run
   | ["cycBegin"] => some .cycBegin
   | ["cycStep"] => some .cycStep
   | ["stats"] => some .stats
@@ -108,6 +109,7 @@ def seqStep (st : SeqState) (line : String) : SeqState × String :=
   match words line with
   | ["case", _] => (⟨Sys.init, 0⟩, "case")
   | [_, "sleep", _] => (st, "ok")      -- the harness lets real time pass; nothing else happens
+  | [_, "flushBegin"] => (st, "ok")    -- `flush()` called on a helper thread; it runs its cycle once no other is in progress
   | t :: rest =>
     match t.toNat?, parseOp rest with
     | some t, some op =>
@@ -122,6 +124,7 @@ def offStep (line : String) : String :=
   match words line with
   | ["case", _] => "case"
   | [_, "sleep", _] => "ok"
+  | [_, "flushBegin"] => "ok"
   | _ :: rest =>
     match parseOp rest with
     | some op => showObs 0 (execOff op)
